@@ -81,8 +81,17 @@ class Work:
             f.write(gm)
         shutil.copy(os.path.join(REPO, "go.sum"), os.path.join(hdir, "go.sum"))
         out = self.path("bin", "harness")
-        r = subprocess.run(["go", "build", "-tags", "verif", "-overlay", os.path.join(ov, "overlay.json"), "-o", out, "."],
-                           cwd=hdir, env=env, capture_output=True, text=True)
+        cmd = ["go", "build", "-tags", "verif", "-overlay", os.path.join(ov, "overlay.json"), "-o", out, "."]
+        if os.environ.get("VERIF_COVER"):
+            # development aid (tools/coverage.sh): statement coverage of the hagall packages by what a check executes.
+            # `go build -cover` does not see files that exist only in an overlay, so the overlay is applied to a copy.
+            rc = self.path("covrepo", "x")[:-2]
+            subprocess.run(["rsync", "-a", "--exclude", ".git", REPO.rstrip("/") + "/", rc + "/"], check=True)
+            subprocess.run("cp -r %s/src/* %s/" % (ov, rc), shell=True, check=True)
+            with open(os.path.join(hdir, "go.mod"), "w") as f:
+                f.write(re.sub(r"(?m)^(replace github.com/aukilabs/hagall => ).*$", lambda m: m.group(1) + rc, gm))
+            cmd = ["go", "build", "-cover", "-coverpkg=verif/harness,github.com/aukilabs/hagall/...", "-tags", "verif", "-o", out, "."]
+        r = subprocess.run(cmd, cwd=hdir, env=env, capture_output=True, text=True)
         if r.returncode != 0:
             raise Inconclusive("harness build failed (the tree under test does not compile with the verif overlay):\n" + r.stderr[-3000:])
         self.overlay = os.path.join(ov, "overlay.json")
@@ -96,6 +105,9 @@ class Work:
         e = dict(os.environ)
         if env:
             e.update(env)
+        if os.environ.get("VERIF_COVER"):
+            os.makedirs(os.environ["VERIF_COVER"], exist_ok=True)
+            e["GOCOVERDIR"] = os.environ["VERIF_COVER"]
         r = subprocess.run([h] + args, capture_output=True, text=True, timeout=timeout, env=e)
         if r.returncode != 0:
             raise Inconclusive("harness %s failed (exit %d): %s" % (args[0], r.returncode, (r.stderr or r.stdout)[-2000:]))
